@@ -192,7 +192,7 @@ Definition inline_keyed_raw (files : list lfile) (links : list link) : bool :=
 (* Which go-to-definition the tree under test has: [AsFound] = /repo HEAD (relative_to_full_path joins
    text onto a URL); [Fixed] once fix-c14-definition-uri.patch is applied (VERIF_C14_DEF=fixed tries it
    without editing). *)
-Definition def_variant : variant := AsFound.
+Definition def_variant : variant := Fixed.
 
 Definition run_links (v dv : variant) (base : string) (files : list lfile) (links : list link)
                      (o_loaded : option (list string)) : verdict :=
@@ -207,7 +207,9 @@ Definition run_links (v dv : variant) (base : string) (files : list lfile) (link
     flag 5 (forallb (fun l => def_ok files l (l_def l) && def_ok files l (l_def2 l)) links) ++
     (* 6: the references of a file's URI are the files that link to it *)
     flag 6 (forallb (fun g => refs_ok files links g (f_refs g) && refs_ok files links g (f_refs2 g)) files) in
-  let cls := flag 9 (negb (def_text_join base files links)) ++ flag 10 (negb (inline_keyed_raw files links)) in
+  (* class 9 (F-C14-def-uri: the definition URI built by joining text onto a URL) is repaired (a61b14e):
+     a failure of sub-property 5 is no longer excused *)
+  let cls := flag 10 (negb (inline_keyed_raw files links)) in
   let explained := flat_map explains cls in
   let cls := if forallb (fun p => existsb (N.eqb p) explained) prop then cls else [] in
   let nontriv := existsb (fun l => match link_file files l, nth_error files (l_from l) with
